@@ -195,3 +195,34 @@ Example C07_example_repeat :
   | None => False
   end.
 Proof. vm_compute. split; reflexivity. Qed.
+
+(* ------------------------------------------------------------------ end to end: the caching proxy ------------ *)
+(* Router/Cached.v composes the request path (rules, forward, EDNS and header fix-ups) with cacheCtl.Get/Store and
+   the prefetch.  In every state reachable by any history of requests, prefetches (any question, client, upstream),
+   clock ticks, collections and evictions: a response SERVED FROM CACHE to query [m] of [client] is — apart from TTL
+   ageing (SubtractTTL by some delta) and the per-request fix-ups (ID / RD / opcode copied from the query, own OPT iff
+   the query had one) — exactly what [forward] returned for the same lower-cased question when it was asked for a
+   client with the same cache key (the same group): same rcode and flags, same records in every section and order.
+   [ckey] is the cache key as a function of question and client, injective in the question (C07_cache_key_injective). *)
+From Mos Require Import Router.Rules Router.Edns Router.Router Cache.CachePolicy Router.Cached Router.CachedProofs.
+Theorem C07_hit_is_relayed_answer : forall matches rules ecs up ckey maxttl,
+  (forall u w r, up u w = UReply r -> count_opt (m_ar r) <= 1) ->
+  (forall q1 c1 q2 c2, ckey q1 c1 = ckey q2 c2 -> q1 = q2) ->
+  forall (clk : N) (evs : list cev) (t ts eps : Z) (m : msg) (client : addr),
+  let st := fst (crun matches rules ecs up ckey maxttl (init_state clk) evs) in
+  let o := snd (handle_c matches rules ecs up ckey maxttl st t ts eps m client) in
+  unsupported m = false -> co_cached o = true ->
+  co_eff o = [] /\
+  exists q qs u c r delta,
+    m_qs m = q :: qs /\ ckey (lower_q q) c = ckey (lower_q q) client /\
+    fst (forward_q ecs up u (lower_q q) c) = Some r /\
+    co_resp o = fix_header m (let r' := subtract_ttl delta r in
+                              if has_opt m then add_or_replace_opt r' else remove_opt r').
+Proof.
+  intros matches rules ecs up ckey maxttl H1 Hinj clk evs t ts eps m client st o Hu Hc.
+  assert (Hi : cinv ecs up ckey st) by (apply (crun_inv matches rules ecs up ckey maxttl H1 Hinj); apply cinv_init).
+  split.
+  - apply (handle_c_effects matches rules ecs up ckey maxttl H1 Hinj _ _ _ _ _ _ Hi). exact Hc.
+  - apply (handle_c_hit_source matches rules ecs up ckey maxttl Hinj _ _ _ _ _ _ Hi Hu Hc).
+Qed.
+Print Assumptions C07_hit_is_relayed_answer.
